@@ -528,12 +528,21 @@ class An(ResultQuantifier[T]):
         # start from a clean state whatever happened to earlier evaluations, and leave a clean state behind on any exit
         # (exhausted, closed early, abandoned or aborted by an exception raised from user code).
         self._reset_cache_()
+        results = self._evaluate__()
         try:
-            with symbolic_mode(mode=None):
-                results = self._evaluate__()
-                assert not in_symbolic_mode()
-                yield from map(self._process_result_, results)
+            while True:
+                # symbolic mode is switched off only while the query is doing work and restored before every result is
+                # handed out, never across a suspension: the caller may enter, leave or stay in symbolic blocks between
+                # two results, and may finish, close or abandon this iterator anywhere.
+                with symbolic_mode(mode=None):
+                    try:
+                        result = self._process_result_(next(results))
+                    except StopIteration:
+                        break
+                yield result
         finally:
+            with symbolic_mode(mode=None):
+                results.close()
             self._reset_cache_()
 
     def _evaluate__(self, sources: Optional[Dict[int, HashedValue]] = None, yield_when_false: bool = False) -> Iterable[T]:
